@@ -550,6 +550,13 @@ class SampleList(SampleListBase):
                 fname = _sample_file_name(file_name_base, isample)
                 _save_to_disk(fname, obj, overwrite)
 
+        # Remove the mean of a ResidualSampleList that has potentially been
+        # saved under the same name before. Otherwise, the files on disk look
+        # like a ResidualSampleList although they are a plain SampleList.
+        with ensure_all_tasks_succeed(self.comm):
+            if overwrite and self.MPI_master:
+                pathlib.Path(f"{file_name_base}.mean.pickle").unlink(missing_ok=True)
+
     @classmethod
     def load(cls, file_name_base, comm=None):
         from ..logger import logger
